@@ -6,7 +6,7 @@ LEVEL_NOTE=("Trusted: the goavc VC generator, go/ssa v0.29.0, the SMT solvers, a
  "(/verif/models/*.spec; listed per run in the evidence). Integers are mathematical, execution is sequential, termination is not proved.")
 T="contract-based deductive verification: WP-style VC generation over go/ssa + SMT (z3, cvc5)"
 claimed={
- "C01": dict(text="Necessary conditions only, for two mechanisms: NameScope.Unique/HashedUnique never return an identifier that is already in use and record it (whole-map postconditions, so two calls cannot collide; same hash gives the same name), and fixReservedGo never returns a Go keyword, predeclared identifier or imported package name. That every accepted design generates code that compiles (templates, type-correctness of emitted Go) cannot be stated as a contract and is not claimed.",
+ "C01": dict(text="Necessary conditions only, for two mechanisms: NameScope.Unique/HashedUnique never return an identifier that is already in use and record it (whole-map postconditions, so two calls cannot collide; same hash gives the same name), and fixReservedGo never returns a Go keyword, predeclared identifier or imported package name, and every non-empty identifier Goify returns has passed through it (or is one of the two fixed defaults). That every accepted design generates code that compiles (templates, type-correctness of emitted Go) cannot be stated as a contract and is not claimed.",
              ref="§3 C01", technique=T),
  "C05": dict(text="Runtime half only: the default error encoder writes exactly one header and one body, the status is the one the response object reports, plain errors become a 500 fault, service errors map through the flag table, decoding-error constructors give 400/415 (lemmas over the table). Declared errors are generated code and are not covered.",
              ref="§3 C05", technique=T),
@@ -16,9 +16,9 @@ claimed={
              ref="§3 C09", technique=T),
  "C11": dict(text="RunDSL: the four phases are global (ghost phase automaton: every WalkSets/prepare/validate/finalize call-site precondition is a barrier obligation), every root registered before the run completes all four phases when nil is returned, finalization never starts on a failed design. The environment (WalkSets callbacks, set runners) and the dependency sort Roots() are assumed contracts; Roots() additionally has a bounded stand-in (all digraphs <= 4 roots x all registration orders), labelled bounded and not counted as proved.",
              ref="§3 C11", technique=T+"; bounded exhaustive execution for Roots()"),
- "C13": dict(text="Stated parts: permutation invariance of the hash (call-site precondition of sort.Slice checked on the real comparator bodies), run-to-run determinism (no order-dependent map range), freshness of every node DupAttribute / ValidationExpr.Dup / MetaExpr.Dup allocate and their frames (nothing pre-existing is written). DupType's frame is assumed (trusted) for the mutual recursion. No global injectivity of the hash, no termination.",
+ "C13": dict(text="Stated parts: permutation invariance of the hash (the comparators handed to sort.Slice are strict orders by attribute name, the slices hashObject/hashUnion range over are in ascending name order and as long as the declared list, and every iteration appends exactly separator+name+separator+hash(type, same flags): per-iteration relations, the fold follows by induction on the iteration count, which is not machine checked), run-to-run determinism (no order-dependent map range), every attribute DupType installs in a copied array/map/union/object/user type is one produced by DupAttribute (store and call-site discipline on the real body), freshness of every node DupAttribute / ValidationExpr.Dup / MetaExpr.Dup allocate and their frames (nothing pre-existing is written). DupType's frame is assumed (trusted) for the mutual recursion. No global injectivity of the hash, no termination.",
              ref="§3 C13", technique=T),
- "C14": dict(text="Schema side only: the JSON-schema keywords written by initAttributeValidation (OpenAPI 2) and by the validation tail of schemafy (OpenAPI 3) mirror the design's validation keyword for keyword (enum, format, pattern, inclusive/exclusive bounds with the same pointer, i.e. the same number and sense) and length bounds land on the keyword that applies to the kind of value. That the server accepts exactly the documented inputs (C04 side) is not decided.",
+ "C14": dict(text="Schema side only: the JSON-schema keywords written by initAttributeValidation (OpenAPI 2) and by the validation tail of schemafy (OpenAPI 3) mirror the design's validation keyword for keyword (enum, format, pattern, inclusive/exclusive bounds with the same pointer, i.e. the same number and sense) and length bounds land on the keyword that applies to the kind of value; the OpenAPI 2 required list receives, in order, exactly the required names of the design that are not excluded from generation (per-iteration relation; MustGenerate is proved to read the last generate flag). That the server accepts exactly the documented inputs (C04 side) is not decided.",
              ref="§3 C14", technique=T),
  "C15": dict(text="Encoder/decoder agreement through the Content-Type header actually set, JSON fall-back, non-nil encoder, request decoder selection and 415 chain, proved for all header/context values against an uninterpreted mime.ParseMediaType with audited axioms.",
              ref="§3 C15", technique=T),
@@ -34,8 +34,15 @@ claimed={
              ref="§3 C18", technique=T),
 }
 na={
+ "C02": "The client-encode / server-decode round trip relates two programs that goa generates as text for every design. The functions that decide the attribute-to-location partition walk cyclic expression graphs through dozens of helpers with package-level state and emit templates; no contract on a /repo function within the verifier's subset states the round trip, and proving a hand-written model of the generated code would be a different technique.",
+ "C03": "Same as C02 for responses and errors: the property is about generated encoder/decoder pairs, not about a function of /repo that can carry a contract. The runtime pieces it rests on (ErrorResponse status table, encoder selection) are decided under C05 and C15.",
+ "C04": "The validation code whose acceptance set the property describes is emitted text (codegen/validation.go builds Go source with templates). The runtime validators it calls are decided under C17 and the error constructors under C05; a contract over the emitted text would need a verifier for the generated programs per design, which was not built.",
+ "C07": "Relates the output of two generators (OpenAPI 2 and 3 documents) and an external schema validator over all designs; it is a relation between two whole-program outputs, not a postcondition of one function.",
+ "C08": "Result-type projection (expr.Project) is recursive, memoised through string hashes, runs DSL through eval.Execute and the property also covers generated view code; outside the subset (deep recursion over cyclic graphs with global registries) and partly about generated programs.",
+ "C10": "gRPC/protobuf conversion code is generated text and protoc is not installed in the sandbox; nothing in /repo that runs can carry the contract.",
+ "C12": "Whole-program panic freedom and termination of dsl/ + expr/ evaluation for every DSL program: termination is not proved by this verifier, and the property quantifies over all call sequences of ~200 DSL functions sharing global state, not over one function or data structure.",
 }
-default_na="not built yet"
+default_na="no contract within reach decides this property"
 def commits():
     try:
         out=subprocess.check_output(['git','-C','/repo','log','--format=%H %s']).decode().splitlines()
